@@ -446,6 +446,19 @@ class Check:
             tail = "" if concrete else " no-failing-input-found"
             print(f"VIOLATION property={self.pid} replay={replay_path}{tail}")
         cov = self.cov
+        # schema hygiene: `exhaustive` is a boolean; counts are integers; samples is a non-empty list
+        if "exhaustive" in cov and not isinstance(cov["exhaustive"], bool):
+            cov["exhaustive_note"] = str(cov["exhaustive"])
+            cov["exhaustive"] = False
+        for k in ("evaluations", "distinct_nontrivial", "states", "transitions", "traces_validated_against_impl",
+                  "obligations", "discharged", "programs", "disagreements_checked"):
+            if k in cov and not isinstance(cov[k], int):
+                try:
+                    cov[k] = int(cov[k])
+                except Exception:
+                    cov.pop(k)
+        if not isinstance(cov.get("samples"), list):
+            cov["samples"] = [cov.get("samples")]
         cov["known_findings_hit"] = sorted(printed)
         ev = {"property_id": self.pid, "tier": self.tier, "seed": self.seed, "level": level,
               "coverage": cov, "assumptions": self.assumptions, "wall_s": round(time.time() - self.t0, 2),
